@@ -595,6 +595,16 @@ type AssignLoc struct {
 	Text string
 }
 
+// CoverSpec: every (flattened) field of struct type Type must be mentioned as <Prefix>.<field> in some ensures clause,
+// except the listed ones. Generates one obligation per field, so that a field added to the struct without extending the
+// contract (and hence the copier) fails.
+type CoverSpec struct {
+	Prefix string
+	Type   string
+	Except []string
+	Line   int
+}
+
 type GhostExit struct {
 	Target SExpr // e.g. bmach.inpos
 	Vars   []SVar
@@ -626,6 +636,7 @@ type FuncContract struct {
 	FrameOnly  bool
 	SyncPreserves []AssignLoc // at channel operations everything but these locations may change
 	HasSync       bool
+	Covers        []CoverSpec
 }
 
 type SpecFunc struct {
@@ -667,7 +678,7 @@ type SpecFile struct {
 var directiveKw = map[string]bool{
 	"func": true, "extern": true, "interface": true, "functype": true, "requires": true, "ensures": true, "assigns": true, "reads": true,
 	"loop": true, "pure": true, "trusted": true, "spec": true, "pred": true, "uninterp": true, "ghost": true,
-	"lemma": true, "axiom": true, "props": true, "nopanic": true, "exclude": true, "frameonly": true, "sync": true,
+	"lemma": true, "axiom": true, "props": true, "nopanic": true, "exclude": true, "frameonly": true, "sync": true, "covers": true,
 }
 
 func parseSpecFile(path string, pkgName string) (*SpecFile, error) {
@@ -970,6 +981,27 @@ func parseSpecFile(path string, pkgName string) (*SpecFile, error) {
 				}
 			}
 			sf.RawText = append(sf.RawText, fmt.Sprintf("%s:%d sync preserves (%s): other goroutines are assumed not to write the listed locations", path, d.line, cur.Key))
+		case "covers":
+			if cur == nil {
+				return nil, p.errf("covers outside func")
+			}
+			cs := CoverSpec{Line: d.line}
+			cs.Prefix = p.next().v
+			t, err := p.parseTypeStr()
+			if err != nil {
+				return nil, err
+			}
+			cs.Type = t
+			if p.isId("except") {
+				p.p++
+				for p.peek().k == "id" {
+					cs.Except = append(cs.Except, p.next().v)
+					if p.isOp(",") {
+						p.p++
+					}
+				}
+			}
+			cur.Covers = append(cur.Covers, cs)
 		case "frameonly":
 			// only frame / reads / postcondition obligations are generated; run-time panics and callee
 			// preconditions are assumed not to occur (listed as an assumption in the evidence)
